@@ -36,6 +36,7 @@ var c15Reqs = []c15Req{
 	{"syntax", `subscription { events { id `, "", "syntax", "", nil},
 	{"validation", `subscription { events { nope } }`, "", "validation", "", nil},
 	{"unknown-op", `subscription A { events { id } }`, "B", "unknown-op", "", nil},
+	{"unknown-op-anonymous", `subscription { events { id } }`, "Nope", "unknown-op", "", nil},
 }
 
 type C15Scn struct {
@@ -57,7 +58,7 @@ func init() { Register(c15{}) }
 
 func (c15) ID() string { return "C15" }
 
-var c15SubModes = []string{"err", "nil", "value", "panic_err", "panic_str", "panic_int", "closed"}
+var c15SubModes = []string{"err", "nil", "value", "panic_err", "panic_str", "panic_int", "closed", "block_ctx"}
 
 // enumerated part: subscribe-phase outcomes x consumer behaviour x end kind
 func (c15) EnumSize(tier string) int {
@@ -82,12 +83,15 @@ func (p c15) Gen(seed uint64, enum int, tier string) json.RawMessage {
 		s.Events = []int{0, 1, 3, 0}
 		s.StopAfter = 1
 		s.Park = c15AllPark
+		if s.SubMode == "block_ctx" && !strings.Contains(s.End, "cancel") {
+			s.End = "close+cancel" // only a cancellation ends the wait
+		}
 		return mustJSON(s)
 	}
 	r := NewRNG(seed)
 	s.Req = r.Intn(5)
 	if r.Chance(12) {
-		s.Req = 5 + r.Intn(3)
+		s.Req = 5 + r.Intn(4)
 	}
 	if r.Chance(12) {
 		s.SubMode = c15SubModes[r.Intn(len(c15SubModes))]
@@ -112,6 +116,9 @@ func (p c15) Gen(seed uint64, enum int, tier string) json.RawMessage {
 		}
 	}
 	s.Sticky = []int{0, 30, 60, 90}[r.Intn(4)]
+	if s.SubMode == "block_ctx" && !strings.Contains(s.End, "cancel") {
+		s.End = "cancel"
+	}
 	if strings.Contains(s.End, "cancel") && r.Chance(60) {
 		s.CancelStep = r.Intn(10 + 12*len(s.Events))
 	}
@@ -275,6 +282,11 @@ func (c15) Run(t TestingT, scn json.RawMessage, tape *Tape) *Outcome {
 				c := make(chan interface{})
 				close(c)
 				return c, nil
+			case "block_ctx":
+				// a source that is not ready: the resolver waits for it or for
+				// the end of the request, whichever comes first
+				<-p.Context.Done()
+				return nil, p.Context.Err()
 			}
 			return src, nil
 		}
